@@ -368,6 +368,9 @@ func cmdRun(args []string) int {
 		}
 		var refs []caseRef
 		for ri, rr := range results {
+			if engineOnly(rr.name) {
+				continue
+			}
 			for vi, v := range rr.r.Violations {
 				cases = append(cases, nativeCase{rr.name, v.Model})
 				refs = append(refs, caseRef{ri, vi, -1})
@@ -391,6 +394,44 @@ func cmdRun(args []string) int {
 		replayed := make([]int, len(results))
 		mismatch := make([]int, len(results))
 		confirmedViol := make([]int, len(results))
+		// engine-only harnesses inject library/OS faults that a native run cannot reproduce: their
+		// counterexamples are reported from the engine's own (concrete) re-execution of the model
+		for ri, rr := range results {
+			if !engineOnly(rr.name) {
+				continue
+			}
+			engineOnlyUsed = true
+			for _, v := range rr.r.Violations {
+				pr := interp.RunPath(l.shared, pkg.Func(rr.name), nil, nil, nil, cfg, v.Model)
+				again := false
+				for _, v2 := range pr.Violations {
+					if v2.Label == v.Label {
+						again = true
+					}
+				}
+				if pr.Status == "panic" && v.Kind == "panic" {
+					again = true
+				}
+				if !again {
+					msg := fmt.Sprintf("counterexample for %s/%s did not reproduce in the engine's concrete re-execution", rr.name, v.Label)
+					fmt.Fprintln(os.Stderr, "INCONCLUSIVE:", msg)
+					inconclusive = append(inconclusive, msg)
+					exit = max(exit, 2)
+					continue
+				}
+				confirmedViol[ri]++
+				totalViol++
+				nReplayFile++
+				rp := filepath.Join(*verif, "out", "replay", fmt.Sprintf("%s-%s-%d.json", *prop, rr.name, nReplayFile))
+				os.MkdirAll(filepath.Dir(rp), 0o755)
+				rb, _ := json.MarshalIndent(map[string]any{"property": *prop, "package": h.ImportPath, "harness": rr.name, "label": v.Label, "kind": v.Kind,
+					"msg": v.Msg, "model": v.Model, "engine_only": true, "trace": v.Trace}, "", " ")
+				os.WriteFile(rp, rb, 0o644)
+				fmt.Printf("VIOLATION property=%s replay=%s\n", *prop, rp)
+				fmt.Printf("  harness=%s label=%s kind=%s %s model=%s (engine-only harness: faults are injected, replay is the engine's concrete re-execution)\n", rr.name, v.Label, v.Kind, v.Msg, modelString(v.Model))
+				exit = max(exit, 1)
+			}
+		}
 		for ci, ref := range refs {
 			if outs == nil {
 				break
@@ -581,6 +622,11 @@ func cmdRun(args []string) int {
 		*prop, *tier, totalPaths, totalCompleted, totalQueries, totalReplayed, totalViol, len(knownPrinted), wall, exit)
 	return exit
 }
+
+var engineOnlyUsed bool
+
+// engineOnly reports harnesses (name part "_E_") whose environment faults are injected by the engine.
+func engineOnly(name string) bool { return strings.Contains(name, "_E_") || strings.HasSuffix(name, "_E") }
 
 func keys(m map[string]bool) []string {
 	out := []string{}
